@@ -29,7 +29,7 @@ func run(c *driver.Ctx) {
 		if !c.Want(i) {
 			continue
 		}
-		if c.NViolations() >= 12 || c.TotalViolations() >= 25 || abandonedRigs.Load() >= 6 {
+		if c.NViolations() >= 12 || c.TotalViolations() >= 8 || abandonedRigs.Load() >= 6 {
 			break
 		}
 		rng := c.CaseRand(i)
